@@ -218,6 +218,10 @@ AN = AN + _an('A6', [add(u(app(u(_cc), u(u(_cc))))), add(var(2)), union(_cc, var
 _d1 = app(_cc, _cc); _d2 = app(_d1, _d1); _d3 = app(_d2, _d2); _x8 = u(_cc); _p8 = app(_x8, _d3)
 AN = AN + _an('A8', [add(u(_p8)), add(app(_p8, _p8)), add(app(_p8, _x8)), add(app(_x8, _p8)), add(app(_d1, _p8)), add(var(2)), union(_cc, var(2))],
               'the improving class reaches one node through two independent chains of depth 1 and 3: the node improves twice within one rebuild under any worklist order; five parents above it')
+_c9 = u(u(u(k(0, 1)))); _b9 = j(0, 1); _d9 = u(u(u(u(m3(0, 1, 0))))); _q9 = app(_b9, _d9)
+AN = AN + _an('A9', [add(lam(2, _c9)), add(app(_c9, _d9)), union(lam(2, _c9), app(_c9, _d9)), add(_q9), add(lam(2, _q9)), add(u(_q9)), add(app(_q9, _q9)), add(app(_q9, _d9)), add(app(_d9, _q9)), add(lam(2, lam(2, _q9))),
+                     add(_c9), add(_b9), union(_c9, _b9)],
+              'a class P = {f(c), h(c,d)} is merged away by congruence (h(c,d) = h(b,d), the other class has more parents) in the same rebuild in which its member f(c) improves because c = b: the moved node must still be re-analysed')
 for _t in AN: _t.light = True
 # --- constant folding with a modify hook (language La, numbers concrete, slot names symbolic): the hook adds (num v) to every class whose datum is Some(v) and
 # unions it - the analysis changes the equivalence itself, so the oracle closure contains the folded constants (oracle.const_closure)
